@@ -55,11 +55,6 @@ def devNotAtomic : List (Name × DescArg) → Bool
   | [] => false
   | _ :: t => t.any (fun nd => (toPropertyDescriptor nd.2).isNone)
 
-/-- `Dev_accessor_both_undefined`: the heap holds an accessor property whose getter and setter are
-    both undefined – getOwnPropertyDescriptor then reports neither get/set nor value/writable. -/
-def devBothUndef (h : MHeap) : Bool :=
-  h.any (fun o => o.props.any (fun kp => match kp.2.value with | .gs .nil .nil => true | _ => false))
-
 /-- names enumerated by otto's for-in from an object on the chain although an earlier object on the
     chain has a property of that name -/
 def shadowedOn (h : MHeap) : Nat → Option Addr → List Name → Bool
@@ -109,7 +104,6 @@ def devStep (h : MHeap) (op : Op) (h' : MHeap) : List String :=
   (if g then ["generic_loses_writable"] else []) ++
   (if a2d then ["acc_to_data_keeps_accessor"] else []) ++
   (if na then ["defineProperties_not_atomic"] else []) ++
-  (if devBothUndef h' then ["accessor_both_undefined"] else []) ++
   (if devForIn h' then ["forin_shadowed"] else [])
 
 def devRun (h : MHeap) : List Op → List String
